@@ -195,6 +195,11 @@ class GuardWalk:
     def _bind(self, name: str, kind: str, payload, guard, loops) -> None:
         self._n += 1
         self.defs.setdefault(name, []).append((kind, payload, self._n, guard, loops))
+        if getattr(self, '_in_comp', 0):
+            # bound by a comprehension: visible inside that comprehension only
+            if not hasattr(self, 'comp_defs'):
+                self.comp_defs = set()
+            self.comp_defs.add(self._n)
 
     def _bind_target(self, t: ast.AST, value: ast.AST, guard, loops, elem=False) -> None:
         if isinstance(t, ast.Name):
@@ -232,7 +237,11 @@ class GuardWalk:
                 self.expr(g.iter, cur, lp)
                 lp = lp + ((g.target, g.iter),)
                 cur = f_and(cur, ('iter', src(g.target), g.iter))
-                self._bind_target(g.target, g.iter, cur, lp, elem=True)
+                self._in_comp = getattr(self, '_in_comp', 0) + 1
+                try:
+                    self._bind_target(g.target, g.iter, cur, lp, elem=True)
+                finally:
+                    self._in_comp -= 1
                 for c in g.ifs:
                     self.expr(c, cur, lp)
                     cur = f_and(cur, formula_of(c))
@@ -465,11 +474,16 @@ class GuardWalk:
             self._emit(kind, t, g, loops, target=t, value=v)
 
     # ------------------------------------------------------------ def-use
-    def single_def(self, name: str) -> Optional[Tuple]:
-        """the unique binding of a local that is not a parameter; None otherwise"""
+    def single_def(self, name: str, outside_comps: bool = False) -> Optional[Tuple]:
+        """the unique binding of a local that is not a parameter; None otherwise.  With
+        `outside_comps` the bindings made by comprehensions are not counted (for a use that is
+        known not to be inside one of them: their variables are invisible there)"""
         if name in self.params:
             return None
         ds = self.defs.get(name)
+        if ds is not None and outside_comps:
+            cd = getattr(self, 'comp_defs', set())
+            ds = [d for d in ds if d[2] not in cd]
         if ds is None or len(ds) != 1:
             return None
         if name in self.mutated_roots() and ds[0][0] == 'value' and \
@@ -504,7 +518,7 @@ class GuardWalk:
         return self._mut_roots
 
     def expand(self, e: ast.AST, rename: Optional[Dict[str, str]] = None, depth: int = 8,
-               stop: Iterable[str] = ()) -> ast.AST:
+               stop: Iterable[str] = (), outside_comps: bool = False) -> ast.AST:
         """substitute single-assignment locals by their defining expression; rename params"""
         walk = self
         rename = rename or {}
@@ -545,7 +559,7 @@ class GuardWalk:
                     return ast.Name(rename[n.id], ast.Load())
                 if self.d <= 0 or n.id in stop:
                     return n
-                d = walk.single_def(n.id)
+                d = walk.single_def(n.id, outside_comps)
                 if d is None:
                     return n
                 kind, payload = d[0], d[1]
